@@ -180,11 +180,19 @@ where
                 // We don't have a valid connection - we must reconnect.
                 if src.inner.is_none() {
                     warn!("Reconnecting");
-                    match inner::connect(&src.config).await {
-                        Ok(inner) => src.inner = Some(inner),
-                        Err(err) => {
+                    // The handshake awaits the PT as well: without a timeout a PT
+                    // which accepts the connection and then stays silent would
+                    // block the call forever.
+                    match tokio::time::timeout(timeout, inner::connect(&src.config)).await {
+                        Ok(Ok(inner)) => src.inner = Some(inner),
+                        Ok(Err(err)) => {
                             warn!("Failed to reconnect: {err:?}");
                             yield Err(err);
+                            continue;
+                        }
+                        Err(_) => {
+                            warn!("Timeout while reconnecting");
+                            yield Err(Error::new(ErrorKind::TimedOut, "Timeout while reconnecting").into());
                             continue;
                         }
                     }
